@@ -7,6 +7,7 @@ import (
 	"context"
 	"fmt"
 	"go/types"
+	"math/big"
 	"os/exec"
 	"regexp"
 	"sort"
@@ -40,6 +41,63 @@ func mkBool(b bool) Term {
 
 func app(op string, args ...string) string {
 	return "(" + op + " " + strings.Join(args, " ") + ")"
+}
+
+// numeral parses an SMT integer literal ("5", "(- 5)").
+func numeral(s string) (*big.Int, bool) {
+	neg := false
+	if strings.HasPrefix(s, "(- ") && strings.HasSuffix(s, ")") && !strings.Contains(s[3:], " ") {
+		neg = true
+		s = s[3 : len(s)-1]
+	}
+	if s == "" || s[0] < '0' || s[0] > '9' {
+		return nil, false
+	}
+	n, ok := new(big.Int).SetString(s, 10)
+	if !ok {
+		return nil, false
+	}
+	if neg {
+		n.Neg(n)
+	}
+	return n, true
+}
+
+func numStr(n *big.Int) string {
+	if n.Sign() < 0 {
+		return "(- " + new(big.Int).Neg(n).String() + ")"
+	}
+	return n.String()
+}
+
+// arith builds (op a b) with constant folding on literals (keeps paths with concrete counters decidable).
+func arith(op, a, b string) string {
+	x, ok1 := numeral(a)
+	y, ok2 := numeral(b)
+	if ok1 && ok2 {
+		switch op {
+		case "+":
+			return numStr(new(big.Int).Add(x, y))
+		case "-":
+			return numStr(new(big.Int).Sub(x, y))
+		case "*":
+			return numStr(new(big.Int).Mul(x, y))
+		case "<":
+			return mkBool(x.Cmp(y) < 0).S
+		case "<=":
+			return mkBool(x.Cmp(y) <= 0).S
+		case ">":
+			return mkBool(x.Cmp(y) > 0).S
+		case ">=":
+			return mkBool(x.Cmp(y) >= 0).S
+		case "=":
+			return mkBool(x.Cmp(y) == 0).S
+		}
+	}
+	if op == "=" && a == b {
+		return "true"
+	}
+	return app(op, a, b)
 }
 
 func and(fs ...string) string {
